@@ -1260,6 +1260,9 @@ def instances(tier: str) -> List[Tuple[str, tuple, dict, Callable[..., Callable[
           ("nurikabe", (3, 3, [[2, 0, 0], [0, 0, 0], [0, 0, -1]]), {}, rule_nurikabe),
           ("nurikabe", (3, 2, [[-1, 0], [0, 0], [0, 3]]), {"unknown_low": 2}, rule_nurikabe),
           ("nurikabe", (1, 4, [[1, 0, 0, 1]]), {}, rule_nurikabe),
+          # an island whose clue sits in the very first cell (vertex 0 of the grid graph) and does not fill the board
+          ("nurikabe", (1, 3, [[2, 0, 0]]), {}, rule_nurikabe),
+          ("nurikabe", (2, 2, [[2, 0], [0, 0]]), {}, rule_nurikabe),
           # a '?' island that could have one cell: the lower bound option decides
           ("nurikabe", (2, 3, [[-1, 0, 0], [0, 0, 1]]), {"unknown_low": 2}, rule_nurikabe),
           ("nurikabe", (2, 3, [[-1, 0, 0], [0, 0, 1]]), {"unknown_low": 3}, rule_nurikabe),
@@ -1375,7 +1378,11 @@ def instances(tier: str) -> List[Tuple[str, tuple, dict, Callable[..., Callable[
           ("building", (3, [2, 0, 0], [0, 0, 0], [0, 0, 0], [0, 0, 0]), {}, rule_building),
           ("building", (3, [0, 0, 0], [0, 3, 0], [0, 0, 0], [0, 0, 0]), {}, rule_building),
           ("building", (3, [0, 0, 0], [0, 0, 0], [0, 0, 3], [0, 0, 0]), {}, rule_building),
-          ("building", (3, [0, 0, 0], [0, 0, 0], [0, 0, 0], [1, 0, 0]), {}, rule_building)]
+          ("building", (3, [0, 0, 0], [0, 0, 0], [0, 0, 0], [1, 0, 0]), {}, rule_building),
+          # the clue 1 (the tallest building stands first) on each of the four sides
+          ("building", (3, [0, 1, 0], [0, 0, 0], [0, 0, 0], [0, 0, 0]), {}, rule_building),
+          ("building", (3, [0, 0, 0], [1, 0, 0], [0, 0, 0], [0, 0, 0]), {}, rule_building),
+          ("building", (3, [0, 0, 0], [0, 0, 0], [0, 1, 0], [0, 0, 0]), {}, rule_building)]
     # doppelblock, order 3 (numbers 1..1)
     I += [("doppelblock", (3, [-1, -1, -1], [-1, -1, -1]), {}, rule_doppelblock),
           ("doppelblock", (3, [1, -1, 0], [-1, 0, 1]), {}, rule_doppelblock)]
@@ -1584,7 +1591,8 @@ def _install_group_standin(w: Any) -> None:
 
 
 def _job(args) -> Tuple[str, str, int]:
-    root, overrides, idx, tier = args
+    root, overrides, idx, tier = args[:4]
+    native = args[4] if len(args) > 4 else True
     from .c11 import SolverWorld, variables_of  # late import: c11 imports this module's run hook
 
     repo = Repo(root, overrides)
@@ -1596,9 +1604,12 @@ def _job(args) -> Tuple[str, str, int]:
     try:
         # graph constraints are posted as the native operators (their documented meaning is evaluated directly); that the
         # rank encodings used otherwise mean the same is what C04-C07 decide, that only the flag chooses is C20's CFG-4
-        w = SolverWorld(repo, name, primitives=True)
+        w = SolverWorld(repo, name, primitives=native)
         w.cw.ev.strict_index = False
-        _install_group_standin(w)
+        if native:
+            _install_group_standin(w)
+        else:
+            label += " [with the rank encodings of graph.py instead of the native operators]"
         res = w.cw.call(fn, *a, **kw)
         if not isinstance(res, tuple) or len(res) < 2 or len(w.solvers) != 1:
             return "undecided", f"{label}: unexpected result shape", 0
@@ -1610,7 +1621,7 @@ def _job(args) -> Tuple[str, str, int]:
             vs += part
         ids = [v.attrs["id"] for v in vs]
         posted = _Posted(w.solvers[0])
-        ext = Extender(posted, 100.0 if tier != "quick" else 40.0)
+        ext = Extender(posted, (100.0 if tier != "quick" else 40.0) if native else (30.0 if tier != "quick" else 5.0))
         if getattr(rule, "custom", False):
             return rule(a, kw, ids, posted, ext, label)
         ok = rule(*a, **kw)
@@ -1654,6 +1665,8 @@ def _job(args) -> Tuple[str, str, int]:
                                f"which the published rules {'reject' if got else 'admit'}"), n
         return "ok", label, n
     except TimeoutError:
+        if not native:
+            return "skipped", f"{label}: enumeration budget exceeded", 0  # the native run is the deciding one
         return "undecided", f"{label}: enumeration budget exceeded", 0
     except Undecided as ex:
         return "undecided", f"{label}: {ex}", 0
@@ -1679,6 +1692,14 @@ def run(repo: Repo, rep: Report, only: Optional[List[str]] = None) -> None:
     jobs = [(repo.root, repo.overrides, i, rep.tier) for i in range(len(insts)) if only is None or insts[i][0] in only]
     if only is not None:
         insts = [t for t in insts if t[0] in only]
+    # the tiniest boards (at most four cells) once more with config.use_graph_primitive off: there the solver's answers are decided
+    # through the rank encodings themselves, so a defect of the shared encodings shows in the puzzle that relies on it (on larger boards
+    # this is the composition with C04-C07)
+    all_insts = instances(rep.tier)
+    tiny = [i for i, (nm, a, _k, _r) in enumerate(all_insts) if (only is None or nm in only) and len(a) >= 2
+            and isinstance(a[0], int) and isinstance(a[1], int) and not isinstance(a[0], bool) and a[0] * a[1] <= 4 and not getattr(_r, "custom", False)]
+    jobs += [(repo.root, repo.overrides, i, rep.tier, False) for i in tiny]
+    insts = insts + [all_insts[i] for i in tiny]
     with ProcessPoolExecutor(max_workers=16) as ex:
         results = list(ex.map(_job, jobs))
     per: Dict[str, List[Tuple[str, str, int]]] = {}
@@ -1689,6 +1710,7 @@ def run(repo: Repo, rep: Report, only: Optional[List[str]] = None) -> None:
         rep.saw(file, fn)
         bad = [r for r in rs if r[0] == "bad"]
         und = [r for r in rs if r[0] == "undecided"]
+        rs = [r for r in rs if r[0] != "skipped"]
         if bad:
             rep.finding("PZ-X", file, fn, f"{fn} rules", bad[0][1])
         elif und:
